@@ -124,6 +124,12 @@ class World:
     def operand(self, name: str):
         if name == "X":
             return self.leaves["X"]
+        if name == "Z":
+            return self.sql.make_doomed_relation(build.tags(("a", "b")), ["statically empty"], name="Z")
+        if name == "Z0":
+            return self.sql.make_doomed_relation(frozenset(), ["statically empty, no columns"], name="Z0")
+        if name == "I":
+            return self.sql.make_join_identity_relation(name="I")
         fresh = {"T2": lambda: self._leaf("T2", 0, -1, alias=True), "T3": lambda: self._leaf("T3", 3, 3, alias=True)}
         if name == "T3cc":
             return fresh["T3"]().chain(fresh["T3"]())
@@ -373,14 +379,14 @@ def replay_state(st: dict, out: dict, want_event: bool, want_rejects: bool = Tru
                             V(["C17", "C02"], "rows of the conformed raw tree differ (as a multiset) from direct evaluation of the raw tree",
                               observed=got, expected=exp, reverse_unordered_selects=reverse)
                 if want_event or not raw_same:
-                    out["events"].append({"tree": full_tree(conf), "env": {"T1": st["t1"], "T2": st["t2"], "T3": st["t3"]},
+                    out["events"].append({"tree": full_tree(conf), "env": {"T1": st["t1"], "T2": st["t2"], "T3": st["t3"], "Z": [], "Z0": [], "I": [[]]},
                                           "rows": st["rows"], "bag": True, "checks": ["wf", "coh", "denbag"], "case": dict(case, raw=True)})
         except MachineryError:
             raise
         except Exception as exc:  # noqa: BLE001
             V(["C17", "C08"], f"building/conforming/executing the raw tree raised {type(exc).__name__}: {str(exc)[:300]}")
     if want_event or not same_shape:
-        out["events"].append({"tree": full_tree(rel), "env": {"T1": st["t1"], "T2": st["t2"], "T3": st["t3"]},
+        out["events"].append({"tree": full_tree(rel), "env": {"T1": st["t1"], "T2": st["t2"], "T3": st["t3"], "Z": [], "Z0": [], "I": [[]]},
                               "rows": st["rows"], "bag": True,
                               "checks": ["wf", "meta", "coh", "denbag", "denlist"], "case": case})
 
